@@ -19,7 +19,7 @@ def main(tier: str) -> int:
     prop = "C03"
     T = C.Timer()
     V = C.Verdict(prop)
-    proof_files = ["proofs/ResProofs.v", "props/C03.v"]
+    proof_files = ["proofs/ResProofs.v", "proofs/ResFuel.v", "proofs/ResOneLevel.v", "props/C03.v"]
     build = C.coq_build(res_run.MODEL_FILES + proof_files)
     if any(t in build.failed for t in res_run.MODEL_FILES):
         raise SystemExit("internal error: model/spec files do not compile:\n" + build.log)
